@@ -57,6 +57,12 @@ def parse_model(line):
         if n == 1 and parts[2] == "": ev = [()]
     return shape, srcs, ev
 
+S_ = slice(None)
+# items on the finite dimensions that are always exercised as views: lists between, before and after slices, with integers, on two and three block dimensions
+DESIGNED_VIEWS = [((3, 3, 2), (S_, [2, 0], S_)), ((3, 3, 2), (slice(1, None), [0, 1], slice(None, 1))), ((3, 3, 2), ([0, 1], S_, [1, 0])), ((3, 3, 2), (S_, [2, 0], 1)),
+                  ((3, 3, 2), (1, S_, [0, 1])), ((3, 3, 2), ([2, 0], S_, S_)), ((3, 3, 2), (S_, S_, [1, 0])), ((2, 3), (S_, [2, 0])), ((2, 3), ([1, 0], S_)),
+                  ((3, 2, 3), (S_, [1], S_)), ((3, 2, 3), ([2, 0], 1, S_)), ((3, 2, 3), (slice(0, 3, 2), [1, 0], [0, 2]))]
+
 def main(seed, ncases, driver, out):
     import subprocess
     proc = subprocess.Popen([driver], stdin=subprocess.PIPE, stdout=subprocess.PIPE, text=True)
@@ -66,8 +72,28 @@ def main(seed, ncases, driver, out):
     for c in range(ncases):
         if skip(c): continue
         rnd = case_rnd(seed, c)
+        if c % 400 == 0:
+            # a recurrence that reads its lower orders through a view of its own block, made inside the evaluation and kept: the view must go on working
+            # (it is made while an element of the block is in flight), every element is evaluated once
+            views = {}; rlog = []; k0 = rnd.randint(1, 3)
+            def rev(i, j, n, views=views, rlog=rlog):
+                rlog.append((i, j, n))
+                if (i, j) not in views: views[(i, j)] = T[i, j]
+                return k0 if n == 0 else views[(i, j)][n - 1] + (i + 2 * j + 1)
+            T = BlockSeries(eval=rev, shape=(2, 2), n_infinite=1); dist["recurrence through a kept view"] = dist.get("recurrence through a kept view", 0) + 1
+            rdesc = {"case": c, "scenario": "recurrence through a view made inside the evaluation"}
+            try:
+                got = [T[0, 1, 2], views[(0, 1)][2], views[(0, 1)][3], T[0, 1][4], T[1, 1, 1], views[(1, 1)][1], views[(1, 1)][2]]
+                want = [k0 + 2 * 3, k0 + 2 * 3, k0 + 3 * 3, k0 + 4 * 3, k0 + 4, k0 + 4, k0 + 8]
+                if got != want: failures.append(dict(rdesc, kind="view: element differs", got=str(got), want=str(want)))
+                if len(set(rlog)) != len(rlog): failures.append(dict(rdesc, kind="element-evaluated-twice", log=str(rlog)[:200]))
+            except Exception as e:
+                failures.append(dict(rdesc, kind="view: reading an element raises", error=type(e).__name__ + ": " + str(e)[:120]))
+            evals += 1
         shape = tuple(rnd.randint(1, 3) for _ in range(rnd.choice([0, 1, 2, 2, 3]))); ninf = rnd.choice([1, 1, 2]) if shape else rnd.choice([1, 2])
         if len(shape) == 3 and ninf == 2: ninf = 1
+        force_view = c < len(DESIGNED_VIEWS)
+        if force_view: shape = DESIGNED_VIEWS[c][0]; ninf = 1
         top = 4; log = []
         def ev(*idx, log=log):
             log.append(idx)
@@ -79,7 +105,8 @@ def main(seed, ncases, driver, out):
             h = sum((k + 2) * (v + 1) for k, v in enumerate(idx)); dense[idx] = zero if h % 4 == 0 else h
         ll = rnd.choice([None, 2, 3])
         item = tuple(gen_axis_item(rnd, n, False, ll) for n in shape) + tuple(gen_axis_item(rnd, top, True, ll) for _ in range(ninf))
-        if rnd.random() < 0.04: item = item[:-1] if rnd.random() < 0.5 or not shape else item + (0,)      # wrong number of indices
+        if force_view: item = tuple(DESIGNED_VIEWS[c][1]) + (rnd.randrange(top),); dist["designed view"] = dist.get("designed view", 0) + 1
+        elif rnd.random() < 0.04: item = item[:-1] if rnd.random() < 0.5 or not shape else item + (0,)      # wrong number of indices
         desc = {"shape": list(shape), "n_infinite": ninf, "item": show(item)}
         if len(samples) < 3: samples.append(desc)
         nested = any(isinstance(x, list) and any(isinstance(y, list) for y in x) for x in item)
@@ -101,7 +128,7 @@ def main(seed, ncases, driver, out):
             if tuple(np.shape(npres)) != md[0] or want_src != got_src:
                 failures.append(dict(desc, kind="model-vs-numpy: selection", correspondence_only=True, model=str(md)[:120], numpy=str((np.shape(npres), want_src))[:120]))
         # ---- finite-dimension-only item: a view
-        if len(item) == len(shape) + ninf and shape and rnd.random() < 0.25 and not nested:
+        if len(item) == len(shape) + ninf and shape and (force_view or rnd.random() < 0.25) and not nested:
             fitem = item[:len(shape)]; dist["view"] = dist.get("view", 0) + 1
             mv = parse_model(ask({"cmd": "index", "shape": list(shape), "dense": list(shape), "item": enc(fitem)}))
             try: v = s[fitem]
